@@ -41,6 +41,21 @@ the ordered product to 1e-9 absolute AND, per real / imaginary part whose exact 
 their float arguments next to reflectivity / loss 1, see float_floor: legitimate float cancellation
 stays below it); an entry whose exact value is non-zero must not be reported as exactly 0.  Any chopping / rounding /
 thresholding of the reported matrix, keyed on a setting or not, shows up there.
+
+Relatives (`with_family`, `directed_sums`).  `a + b` and `a.copy()` are program steps like any other: a sibling circuit
+of the same size is built next to `c`, sums (a + b, b + a, c + c, sums of sums, the SAME sum evaluated twice) and copies
+are taken at random points of the construction, `c` goes on being built afterwards and the sums / copies / siblings are
+extended too.  Every read looks at EVERY live object, so the operands of a `+` are read again after it, and every
+one of them must still be the ordered product of the components that were added to IT.
+
+Caller-owned data (`with_client`, `directed_client`; circgen_ext.Client).  A component is defined by the VALUES the
+client handed over.  Under a ["client", cfg] pseudo-op all unitary blocks are read from ONE work buffer per size (or
+from the corner of one large array, or from a column-major buffer) that is refilled for the next block, all swap
+dictionaries / barrier lists are one dict / list that is refilled, and ["scrub", kind, how] overwrites / clears the
+containers at arbitrary points (right after Unitary(buf), after add, after copy / +, between two reads);
+["scribble", id, attr, how] writes into a matrix / dict the library handed out (U, U_full, heralds).  None of this is
+visible to the model (for it a matrix is a value): U of every live object stays the ordered product of what it was
+GIVEN, and a matrix read before and after such a step must not move.
 """
 
 from __future__ import annotations
@@ -80,7 +95,7 @@ ASSUMPTIONS = [
 ]
 
 READ = ["read", "*"]
-PSEUDO = ("read", "setting")  # ops the model never sees
+PSEUDO = ("read", "setting", *cx.CLIENT_PSEUDO)  # ops the model never sees
 
 # --------------------------------------------------------------------------- global settings
 
@@ -364,10 +379,227 @@ def gen_program(ctx: Ctx, rng) -> list:
             prog.append(["herald", "c", rng.choice([0, 1, 2]), rng.randrange(n), rng.randrange(n)])
         else:
             prog.append(cx.with_param(rng, tiny.prim(rng, cg.rand_prim_op(rng, "c", n, p_invalid=0.15)), ptab, 0.08))
-    body = with_reads(rng, prog[1:])
+    body = prog[1:]
+    r = rng.random()
+    if r < 0.3:
+        body = with_family(ctx, rng, body, n)
+    body = with_reads(rng, body)
     if use_settings:
         body = with_settings(ctx, rng, body)
+    if 0.2 <= r < 0.55:
+        body = with_client(ctx, rng, body)
     return [prog[0], *body]
+
+
+# ----- relatives: copy() and + as program steps
+
+
+def with_family(ctx: Ctx, rng, ops: list, n: int) -> list:
+    """a sibling `d0` of the size of `c` plus 2-6 family steps at random points of the construction of `c`: a copy, a sum
+    (either order, c + c, sums of sums, the same sum once more), an edit of a relative (sibling / sum / copy), a relative
+    added to `c`.  Sizes are tracked so that the exact model's matrices stay reportable."""
+    size = cx.Size(max_w=44, max_loss=6)
+    k = len(ops)
+    first = rng.randint(0, max(0, k // 2))
+    at = sorted(rng.randint(first, k) for _ in range(rng.randint(2, 6)))
+    members = ["c"]
+    out: list = []
+    last_sum = None
+
+    def emit(op: list) -> None:
+        if op[0] in ("bs", "ps", "loss", "barrier", "swaps"):
+            size.prim(op)
+        elif op[0] == "unitary":
+            size.w[op[1]] = 1
+        elif op[0] == "add":
+            size.add(op[1], op[2])
+        out.append(op)
+
+    def relative() -> str:
+        return rng.choice(members[1:]) if len(members) > 1 and rng.random() < 0.6 else rng.choice(members)
+
+    def family_step(j: int) -> None:
+        nonlocal last_sum
+        x = rng.random()
+        if x < 0.22:
+            src = relative()
+            size.copy(f"k{j}", src)
+            emit(["copy", f"k{j}", src])
+            members.append(f"k{j}")
+            ctx.count("family:copy")
+        elif x < 0.62:
+            a, b = relative(), relative()
+            if last_sum is not None and rng.random() < 0.3:
+                a, b = last_sum  # the same expression once more
+                ctx.count("family:same-sum-evaluated-again")
+            elif rng.random() < 0.5:
+                a, b = ("c", b) if rng.random() < 0.5 else (a, "c")
+            if not size.plus(f"s{j}", a, b):
+                ctx.count("family:plus-skipped(size)")
+                return
+            emit(["plus", f"s{j}", a, b])
+            last_sum = (a, b)
+            members.append(f"s{j}")
+            ctx.count("family:plus" + (":self" if a == b else ":c-is-left" if a == "c" else ":c-is-right" if b == "c" else ""))
+        elif x < 0.9:
+            m = rng.choice(members[1:])
+            emit(cg.rand_prim_op(rng, m, n, p_invalid=0.1))
+            ctx.count("family:edit-a-relative")
+        else:
+            m = rng.choice(members[1:])
+            if size.add("c", m):
+                emit(["add", "c", m, 0, rng.random() < 0.4])
+                ctx.count("family:relative-added-to-c")
+
+    for i in range(k + 1):
+        if i == first:
+            emit(["new", "d0", n])
+            members.append("d0")
+            for _ in range(rng.randint(1, 3)):
+                emit(cg.rand_prim_op(rng, "d0", n))
+            if rng.random() < 0.3:
+                sz = rng.randint(1, n)
+                emit(["unitary", "ud", cg.mat_json(cg.exact_unitary(rng, sz))])
+                emit(["add", "d0", "ud", rng.randint(0, n - sz), rng.random() < 0.5])
+        for j, a in enumerate(at):
+            if a == i and len(members) > 1:
+                family_step(j)
+        if i < k:
+            emit(ops[i])
+    ctx.count("program:with-relatives")
+    return out
+
+
+SUM_SHAPES = ["operands-read-again", "same-sum-twice", "extend-the-sum", "extend-an-operand", "self-sum", "sum-of-sums",
+              "copy-then-edit-original", "copy-then-edit-copy", "copy-of-a-sum", "sums-holding-blocks", "rejected-sum"]
+
+
+def directed_sums(rng, shape: str) -> list:
+    """two circuits of one size, `+` / copy() between them, and the life of all of them afterwards"""
+    n = rng.randint(3, 5)
+
+    def prims(cid: str, k: int) -> list:
+        return [_prim_of(rng, cid, n, rng.choice(["bs", "ps", "swaps", "loss"] if j else ["bs", "swaps"])) for j in range(k)]
+
+    def edit(cid: str) -> list:
+        return _prim_of(rng, cid, n, rng.choice(["bs", "ps", "swaps", "bs+loss"]))
+
+    ops: list = [*prims("c", rng.randint(2, 3)), ["new", "d0", n], *prims("d0", rng.randint(2, 3))]
+    if shape == "operands-read-again":
+        ops += [["plus", "s0", "c", "d0"], ["plus", "s1", "d0", "c"]]
+    elif shape == "same-sum-twice":
+        ops += [["plus", "s0", "c", "d0"], ["plus", "s1", "c", "d0"], ["plus", "s2", "d0", "c"], ["plus", "s3", "c", "d0"]]
+    elif shape == "extend-the-sum":
+        ops += [["plus", "s0", "c", "d0"], edit("s0"), edit("s0"), ["plus", "s1", "d0", "c"], edit("s1")]
+    elif shape == "extend-an-operand":
+        ops += [["plus", "s0", "c", "d0"], edit("c"), edit("d0"), ["plus", "s1", "c", "d0"]]
+    elif shape == "self-sum":
+        ops += [["plus", "s0", "c", "c"], ["plus", "s1", "s0", "c"], edit("c"), ["plus", "s2", "c", "c"]]
+    elif shape == "sum-of-sums":
+        ops += [["plus", "s0", "c", "d0"], ["plus", "s1", "s0", "s0"], ["plus", "s2", "d0", "s0"], edit("s0"), edit("s2")]
+    elif shape == "copy-then-edit-original":
+        ops += [["copy", "k0", "c"], edit("c"), ["plus", "s0", "k0", "c"], edit("c")]
+    elif shape == "copy-then-edit-copy":
+        ops += [["copy", "k0", "c"], edit("k0"), ["copy", "k1", "k0"], edit("k1"), ["plus", "s0", "k1", "c"]]
+    elif shape == "copy-of-a-sum":
+        ops += [["plus", "s0", "c", "d0"], ["copy", "k0", "s0"], edit("k0"), edit("s0"), ["plus", "s1", "k0", "s0"]]
+    elif shape == "sums-holding-blocks":
+        sz = rng.randint(1, 2)
+        ops += [["unitary", "u0", cg.mat_json(cg.exact_unitary(rng, sz, depth=2 * sz + 1))],
+                ["add", "c", "u0", rng.randint(0, n - sz), True], ["new", "b0", 2], _prim_of(rng, "b0", 2, "bs"),
+                ["add", "d0", "b0", rng.randint(0, n - 2), True], ["plus", "s0", "c", "d0"],
+                ["add", "s0", "u0", rng.randint(0, n - sz), False], ["plus", "s1", "s0", "c"], edit("d0")]
+    else:  # rejected-sum: sizes differ / an operand has a herald; nothing may change, later sums are still right
+        ops += [["new", "d1", n + 1], ["plus", "s0", "c", "d1"], ["plus", "s1", "d1", "c"], ["copy", "k0", "d0"],
+                ["herald", "k0", rng.choice([0, 1]), rng.randrange(n), rng.randrange(n)], ["plus", "s2", "c", "k0"],
+                ["plus", "s3", "k0", "c"], ["plus", "s4", "c", "d0"]]
+    return [["new", "c", n], *with_reads(rng, ops, rng.choice(["every", "every", "end"]))]
+
+
+# ----- caller-owned data
+
+
+def with_client(ctx: Ctx, rng, body: list) -> list:
+    """the program is run by a client that re-uses its own containers (see circgen_ext.Client), overwrites them at 1-4
+    random points and now and then writes into a matrix the library handed out"""
+    out = list(body)
+    for _ in range(rng.choice([1, 2, 2, 3, 4])):
+        pos = len(out) if rng.random() < 0.2 else rng.randint(0, len(out))
+        if rng.random() < 0.25:
+            live = ["c"] + [op[1] for op in out[:pos] if op[0] in ("new", "unitary", "copy", "plus")]
+            ins = [["scribble", rng.choice(live), rng.choice(cx.SCRIBBLE_ATTR), rng.choice(cx.SCRIBBLE_HOW)]]
+        else:
+            # mostly right behind a call that handed a container over
+            behind = [i + 1 for i, op in enumerate(out) if op[0] in ("unitary", "swaps", "add")]
+            if behind and rng.random() < 0.6:
+                pos = rng.choice(behind)
+            kind = {"unitary": "unitary", "add": "unitary", "swaps": "swaps"}.get(out[pos - 1][0]) if pos else None
+            ins = [cx.rand_scrub(rng, kind if kind and rng.random() < 0.8 else None)]
+        if rng.random() < 0.5:
+            ins.append(READ)
+        out[pos:pos] = ins
+    ctx.count("program:with-client-owned-containers")
+    return [["client", cx.rand_client_cfg(rng)], *out]
+
+
+CLIENT_SHAPES = ["buffer-refilled-per-block", "overwritten-before-add", "overwritten-after-add", "block-inside-building-block",
+                 "copies-and-sums-of-buffer-blocks", "view-overlapping-sizes", "swaps-dict-and-barrier-list-reused",
+                 "scribble-on-handed-out-matrices"]
+
+
+def directed_client(rng, shape: str) -> list:
+    n = rng.randint(4, 5)
+    cfg = {"unitary": rng.choice(["buffer", "buffer", "fortran", "view"]), "swaps": "shared", "modes": "shared"}
+    scrub = ["scrub", "unitary", rng.choice(cx.SCRUB_HOW["unitary"])]
+
+    def blk(uid: str, sz: int) -> list:
+        return ["unitary", uid, cg.mat_json(cg.exact_unitary(rng, sz, depth=2 * sz + 1))]
+
+    def ps() -> list:
+        return _prim_of(rng, "c", n, rng.choice(["ps", "bs"]))
+
+    if shape == "buffer-refilled-per-block":
+        sz = rng.randint(2, 3)
+        ops: list = []
+        for j in range(3):
+            ops += [blk(f"u{j}", sz), ["add", "c", f"u{j}", rng.randint(0, n - sz), rng.random() < 0.4], ps()]
+        return [["new", "c", n], ["client", cfg], *with_reads(rng, ops)]
+    if shape == "overwritten-before-add":
+        sz = rng.randint(1, n)
+        return [["new", "c", n], ["client", cfg], ps(), blk("u0", sz), scrub, READ, ["add", "c", "u0", rng.randint(0, n - sz), rng.random() < 0.5],
+                READ, ps(), READ]
+    if shape == "overwritten-after-add":
+        sz = rng.randint(1, n)
+        return [["new", "c", n], ["client", cfg], blk("u0", sz), ["add", "c", "u0", rng.randint(0, n - sz), rng.random() < 0.5],
+                *([READ] if rng.random() < 0.6 else []), scrub, READ, ps(), cx.rand_scrub(rng, "unitary"), READ]
+    if shape == "block-inside-building-block":
+        sz = rng.randint(1, 2)
+        size = sz + rng.randint(0, 1)
+        return [["new", "c", n], ["client", cfg], blk("u0", sz), ["new", "b0", size], ["add", "b0", "u0", size - sz, True],
+                ["add", "c", "b0", rng.randint(1, n - size), False], scrub, ["add", "c", "b0", rng.randint(0, n - size), True], READ,
+                blk("u1", sz), ["add", "c", "u1", rng.randint(0, n - sz), False], READ]
+    if shape == "copies-and-sums-of-buffer-blocks":
+        sz = rng.randint(2, 3)
+        return [["new", "c", n], ["client", cfg], blk("u0", sz), ["add", "c", "u0", rng.randint(0, n - sz), rng.random() < 0.5],
+                ["copy", "k0", "c"], ["new", "d0", n], blk("u1", sz), ["add", "d0", "u1", rng.randint(0, n - sz), rng.random() < 0.5],
+                ["plus", "s0", "c", "d0"], *([READ] if rng.random() < 0.5 else []), scrub, READ, ["plus", "s1", "d0", "k0"], READ]
+    if shape == "view-overlapping-sizes":
+        cfg["unitary"] = "view"
+        a, b = rng.sample([1, 2, 3, min(4, n)], 2)
+        return [["new", "c", n], ["client", cfg], *with_reads(rng, [
+            blk("u0", a), ["add", "c", "u0", rng.randint(0, n - a), False], blk("u1", b),
+            ["add", "c", "u1", rng.randint(0, n - b), True], blk("u2", a), ["add", "c", "u2", rng.randint(0, n - a), False]])]
+    if shape == "swaps-dict-and-barrier-list-reused":
+        sw = [_prim_of(rng, "c", n, "swaps") for _ in range(3)]
+        return [["new", "c", n], ["client", cfg], sw[0], cx.rand_scrub(rng, "swaps"), READ, ["barrier", "c", [0, n - 1]],
+                cx.rand_scrub(rng, "modes"), ps(), sw[1], ["barrier", "c", [1, 2]], sw[2], READ, cx.rand_scrub(rng, "swaps"),
+                cx.rand_scrub(rng, "modes"), READ]
+    # scribble-on-handed-out-matrices
+    ops = [ps(), _prim_of(rng, "c", n, "bs+loss"), _prim_of(rng, "c", n, "swaps")]
+    out = [["new", "c", n], ["client", cfg], *ops, READ]
+    for attr in rng.sample(cx.SCRIBBLE_ATTR, 3):
+        out += [["scribble", "c", attr, rng.choice(cx.SCRIBBLE_HOW)], *([READ] if rng.random() < 0.5 else []), ps()]
+    return [*out, READ]
 
 
 # ----- directed corpus
@@ -669,11 +901,14 @@ def _run_case(ctx: Ctx, prog: list) -> list[str]:
     reads: list = []  # (index of the last real op done, position in prog, {id: observables})
     fresh = None  # observables of every object, valid while no call has been made since they were read
     real = [op for op in prog if op[0] not in PSEUDO]
+    client = cx.client_of(prog)  # the client's own containers (None: a fresh array / dict / list per call)
     for pos, op in enumerate(prog):
         if op[0] == "read":
             if pool:
                 fresh = {cid: cg.observe(c) for cid, c in pool.items()}
                 reads.append((len(impl_res) - 1, pos, fresh))
+            continue
+        if op[0] == "client":
             continue
         if op[0] == "setting":
             setattr(lw.settings, op[1], op[2])
@@ -687,7 +922,26 @@ def _run_case(ctx: Ctx, prog: list) -> list[str]:
                                      f"{op[2]!r} [object {cid}, after call #{len(impl_res) - 1}]")
                 fresh = after
             continue
-        r = cx.apply_op(pool, op, params)
+        if op[0] in ("scrub", "scribble"):
+            # the client does something with ITS OWN data (a container it had handed over / a matrix it was handed):
+            # no call is made, nothing that any live object reports may move
+            before = fresh if fresh is not None else {cid: cg.observe(c) for cid, c in pool.items()}
+            if op[0] == "scrub":
+                what = (f"the client overwrote ({op[2]}) its own {CONTAINER[op[1]]}, which it had handed to the library earlier"
+                        if client is not None and client.scrub(op[1], op[2]) else None)
+            else:
+                w = cx.scribble(pool, op[1], op[2], op[3])
+                what = w and f"the client wrote into ({op[3]}) {w} of object {op[1]}"
+            if what:
+                after = {cid: cg.observe(c) for cid, c in pool.items()}
+                for cid, b in before.items():
+                    d = cx.diff(b, after[cid], 1e-14)
+                    if d is not None:
+                        probs.append(f"oracle: {d} of a circuit changed without any call: {what} [object {cid}, after call "
+                                     f"#{len(impl_res) - 1}]")
+                fresh = after
+            continue
+        r = cx.step(pool, op, params, client)
         impl_res.append(r)
         if r != "ok" and fresh is not None:
             for cid, before in fresh.items():
@@ -745,6 +999,8 @@ def _run_case(ctx: Ctx, prog: list) -> list[str]:
 
 
 LONG = 16  # calls; up to here the model reports its state after every call
+CONTAINER = {"unitary": "ndarray work buffer(s) (Unitary(buffer))", "swaps": "dictionary (mode_swaps(dict))",
+             "modes": "list of modes (barrier(list))"}
 
 
 def _differs_from_fresh(prog: list, pos: int, snapshot: dict) -> bool:
@@ -752,12 +1008,18 @@ def _differs_from_fresh(prog: list, pos: int, snapshot: dict) -> bool:
     pool that is never read before, and compare"""
     pool: dict = {}
     params: dict = {}
+    client = cx.client_of(prog)
     with settings_scope(reset=True):
         for op in prog[:pos]:
             if op[0] == "setting":
                 setattr(lw.settings, op[1], op[2])
-            elif op[0] != "read":
-                cx.apply_op(pool, op, params)
+            elif op[0] == "scrub":
+                if client is not None:
+                    client.scrub(op[1], op[2])
+            elif op[0] == "scribble":
+                cx.scribble(pool, op[1], op[2], op[3])
+            elif op[0] not in ("read", "client"):
+                cx.step(pool, op, params, client)
         return any(cid in pool and cx.diff(obs, cg.observe(pool[cid]), 1e-9) is not None for cid, obs in snapshot.items())
 
 
@@ -784,8 +1046,23 @@ def _stats(ctx: Ctx, prog: list) -> None:
         ctx.count("program:settings-changed:model-is-setting-independent")
     if any(cx.param_key(op) is not None for op in prog):
         ctx.count("program:with-Parameter")
+    for op in prog:
+        if op[0] == "client":
+            ctx.count("client:unitary-blocks-from=" + op[1].get("unitary", "buffer"))
+        elif op[0] == "scrub":
+            ctx.count(f"client:scrub:{op[1]}:{op[2]}")
+        elif op[0] == "scribble":
+            ctx.count(f"client:scribble:{op[2]}:{op[3]}")
+        elif op[0] == "plus":
+            ctx.count("plus:" + ("self" if op[2] == op[3] else "two-operands"))
+    if any(op[0] in cx.CLIENT_PSEUDO for op in prog):
+        # the driver has no notion of object identity / of the client's memory: for the model a matrix is a value
+        ctx.count("program:client-owned-data:model-sees-values-only")
+    sums = [tuple(op[2:4]) for op in prog if op[0] == "plus"]
+    if len(set(sums)) < len(sums):
+        ctx.count("program:same-sum-evaluated-twice")
     nread = ops.count("read")
-    nreal = len(ops) - nread - ops.count("setting")
+    nreal = len([o for o in ops if o not in PSEUDO])
     ctx.count("reads:" + ("end-only" if nread == 0 else "after-every-call" if nread >= nreal - 1 else "sparse"))
     placed: dict = {}
     for op in prog:
@@ -807,7 +1084,7 @@ def _one(ctx: Ctx, prog: list, sample: bool) -> None:
 
         def still(sub):
             p = [prog[0], *sub]
-            return cx.well_formed([o for o in p if o[0] != "setting"]) and bool(run_case(ctx, p))
+            return cx.well_formed([o for o in p if o[0] not in PSEUDO or o[0] == "read"]) and bool(run_case(ctx, p))
 
         small = [prog[0], *ddmin(prog[1:], still)]
         sprobs = run_case(ctx, small) or probs
@@ -828,7 +1105,13 @@ def run(ctx: Ctx) -> None:
                 "(reflectivity / loss 1e-6..1e-21 and 1-1e-6, 1-1e-9, phases next to 0, pi/2, pi, unitary blocks with "
                 "such entries) whose life is crossed by a change of a global setting (unitary_precision 1e-12..1e-2, "
                 "sampler_probability_threshold) before the build, after it, in the middle, between two reads, set and "
-                "restored before the read; (2) random construction programs (40% of them with tiny-amplitude "
+                "restored before the read; sums and copies (a + b, b + a, c + c, the same sum twice, sums of sums, copies of "
+                "sums; operands, sums and copies extended afterwards; rejected sums) with every operand read again; "
+                "client-owned containers (one ndarray work buffer / corner of a large array / column-major buffer for all "
+                "unitary blocks, one dict for all mode_swaps, one list for all barriers) refilled per call and overwritten "
+                "after Unitary(buf) / add / copy / +, and writes into handed-out U / U_full / heralds; "
+                "(2) random construction programs (30% with a sibling circuit and copy / + steps, 35% run by a client that "
+                "re-uses and overwrites its containers; 40% of them with tiny-amplitude "
                 "components and / or 1-3 changes of a global setting at random points) on one "
                 "circuit (1-8 modes, 0-40 calls, all component kinds, both conventions, unitary blocks via "
                 "add(Unitary), building blocks placed repeatedly, ~15% invalid calls) with U/U_full of every live "
@@ -851,6 +1134,16 @@ def run(ctx: Ctx) -> None:
             for j in (0, 2) if shape != "default-only" else (0,):
                 ctx.count("corpus:settings:" + shape)
                 _one(ctx, directed_settings(rng, shape, vals[(2 * rep + si + j) % len(vals)]), sample=False)
+        for shape in SUM_SHAPES:
+            if ctx.out_of_time():
+                break
+            ctx.count("corpus:sums:" + shape)
+            _one(ctx, directed_sums(rng, shape), sample=False)
+        for shape in CLIENT_SHAPES:
+            if ctx.out_of_time():
+                break
+            ctx.count("corpus:client:" + shape)
+            _one(ctx, directed_client(rng, shape), sample=False)
     N = ctx.n(250, 1900)
     for i in range(N):
         if ctx.out_of_time():
